@@ -226,6 +226,145 @@ def canon(x):
 # ---------------------------------------------------------------------------
 
 
+# ---------------------------------------------------------------------------
+# substitution through callable values of every kind (oracle only: OverloadedSignature / BoundMethodSignature are not
+# in the Coq model).  A callable case is {"kind": "callable", "form": "sig" | "ov" | "bound", "sigs": [[params, ret], ...],
+# "self": spec, "wrap": "none" | "union" | "seq" | "annot" | "generic", "m": [[i, closed spec], ...]}
+
+
+def deep_typevars(x):
+    """every TypeVar reachable in a value / signature (all fields that substitute_typevars rewrites, found by
+    descending the objects directly — not through walk_values)"""
+    from pyanalyze import value as V
+    from pyanalyze import signature as S
+
+    out = set()
+    if isinstance(x, V.TypeVarValue):
+        out.add(x.typevar)
+    elif isinstance(x, V.MultiValuedValue):
+        for y in x.vals:
+            out |= deep_typevars(y)
+    elif isinstance(x, V.AnnotatedValue):
+        out |= deep_typevars(x.value)
+        for md in x.metadata:
+            if isinstance(md, V.Value):
+                out |= deep_typevars(md)
+    elif isinstance(x, V.SubclassValue):
+        out |= deep_typevars(x.typ)
+    elif isinstance(x, V.CallableValue):
+        out |= deep_typevars(x.signature)
+    elif isinstance(x, V.TypedDictValue):
+        for e in x.items.values():
+            out |= deep_typevars(e.typ)
+        if x.extra_keys is not None:
+            out |= deep_typevars(x.extra_keys)
+    elif isinstance(x, V.DictIncompleteValue):
+        for p in x.kv_pairs:
+            out |= deep_typevars(p.key) | deep_typevars(p.value)
+    elif isinstance(x, V.SequenceValue):
+        for _, mem in x.members:
+            out |= deep_typevars(mem)
+    elif isinstance(x, V.GenericValue):
+        for a in x.args:
+            out |= deep_typevars(a)
+    elif isinstance(x, S.Signature):
+        for prm in x.parameters.values():
+            out |= deep_typevars(prm.annotation)
+        out |= deep_typevars(x.return_value)
+    elif isinstance(x, S.OverloadedSignature):
+        for sg in x.signatures:
+            out |= deep_typevars(sg)
+    elif isinstance(x, S.BoundMethodSignature):
+        out |= deep_typevars(x.signature) | deep_typevars(x.self_composite.value)
+        if x.return_override is not None:
+            out |= deep_typevars(x.return_override)
+    return out
+
+
+def gen_callable_case(rng):
+    tv = lambda: ["tv", rng.randrange(3), None, []]
+    closed = lambda: rng.choice([["typed", "int"], ["typed", "str"], ["known", ["none"]], ["generic", "list", [["typed", "int"]]]])
+
+    def with_tv():
+        t = tv()
+        return rng.choice([t, ["generic", "list", [t]], ["unite", [t, ["known", ["none"]]]], ["seq", "tuple", [[False, t], [False, closed()]]],
+                           ["td", [["a", ["typed", "str"], True, False]], t, False], ["annot", t, [1]], ["subclass", t, False]])
+
+    def sig(mentions):
+        params = [closed() for _ in range(rng.randrange(0, 3))]
+        ret = closed()
+        if mentions:
+            if rng.random() < 0.5 or not params:
+                ret = with_tv()
+            else:
+                params[rng.randrange(len(params))] = with_tv()
+        return [params, ret]
+
+    form = rng.choice(["sig", "ov", "ov", "ov", "bound"])
+    if form == "ov":
+        n = rng.choice([2, 3])
+        flags = [rng.random() < 0.5 for _ in range(n)]
+        if rng.random() < 0.7:  # mixed overloads: some mention a type variable, some do not
+            flags[rng.randrange(n)] = True
+            flags[(flags.index(True) + 1) % n] = False
+        sigs = [sig(f) for f in flags]
+    else:
+        sigs = [sig(rng.random() < 0.8)]
+    return {"kind": "callable", "form": form, "sigs": sigs, "self": with_tv() if rng.random() < 0.5 else closed(),
+            "ret_override": with_tv() if rng.random() < 0.3 else None,
+            "wrap": rng.choice(["none", "none", "union", "seq", "annot", "generic"]),
+            "m": [[i, closed()] for i in range(3)]}
+
+
+def run_callable_case(case):
+    """returns the list of violated laws"""
+    from pyanalyze import value as V
+    from pyanalyze.signature import BoundMethodSignature, OverloadedSignature, ParameterKind, Signature, SigParameter
+    from pyanalyze.stacked_scopes import Composite
+    import universe as U
+
+    cache = {}
+    m = {U.TYPEVARS[i]: G.build(sp, cache) for i, sp in case["m"]}
+
+    def mk(sg):
+        params = [SigParameter(f"@{i}", ParameterKind.POSITIONAL_ONLY, annotation=G.build(x, cache)) for i, x in enumerate(sg[0])]
+        return Signature.make(params, G.build(sg[1], cache))
+
+    sigs = [mk(sg) for sg in case["sigs"]]
+    bad = []
+    core = sigs[0] if case["form"] != "ov" else OverloadedSignature(sigs)
+    if case["form"] == "bound":
+        obj = BoundMethodSignature(core, Composite(G.build(case["self"], cache)),
+                                   None if case["ret_override"] is None else G.build(case["ret_override"], cache))
+        res = obj.substitute_typevars(m)
+    else:
+        cv = V.CallableValue(core)
+        obj = {"none": cv, "union": V.unite_values(cv, V.TypedValue(int)), "seq": V.SequenceValue(tuple, [(False, cv), (False, V.TypedValue(int))]),
+               "annot": V.AnnotatedValue(cv, [V.KnownValue(1)]), "generic": V.GenericValue(list, [cv])}[case["wrap"]]
+        res = obj.substitute_typevars(m)
+    if deep_typevars(res) & set(m):
+        bad.append("subst_elim")  # replaces every occurrence
+    if case["form"] == "ov":
+        # distributes over the overloads
+        inner = res
+        if case["wrap"] == "union":
+            inner = next((x for x in V.flatten_values(res) if isinstance(x, V.CallableValue)), None)
+        elif case["wrap"] == "seq":
+            inner = res.members[0][1]
+        elif case["wrap"] == "annot":
+            inner = res.value
+        elif case["wrap"] == "generic":
+            inner = res.args[0]
+        want = [sg.substitute_typevars(m) for sg in sigs]
+        got = getattr(getattr(inner, "signature", None), "signatures", None)
+        if got is None or list(got) != want:
+            bad.append("subst_distributes_over_overloads")
+    if case["form"] != "bound" and case["wrap"] == "union":
+        if res != V.unite_values(*[x.substitute_typevars(m) for x in V.flatten_values(obj)]):
+            bad.append("subst_distributes_over_union")
+    return bad
+
+
 def load_corpus():
     p = lib.VERIF / "harness" / "corpus" / f"{PROP}.json"
     return json.loads(p.read_text()) if p.exists() else []
@@ -244,6 +383,27 @@ def run(tier: str, replay: str | None = None):
         n = 500 if tier == "quick" else 6000
         for _ in range(n):
             cases.append(G.gen_case(rng, fresh))
+        crng = random.Random(lib.seed() * 7907 + 514)
+        for _ in range(150 if tier == "quick" else 1500):
+            cases.append(gen_callable_case(crng))
+
+    # callable-kind cases: oracle on the real code only
+    callable_cases = [c for c in cases if c.get("kind") == "callable"]
+    cases = [c for c in cases if c.get("kind") != "callable"]
+    callable_failures = []
+    for cc in callable_cases:
+        try:
+            bad = run_callable_case(cc)
+        except Exception as ex:  # substitution crashed
+            bad = ["crash: " + repr(ex)[:200]]
+        if bad:
+            callable_failures.append((cc, bad))
+    for cc, bad in callable_failures[:5]:
+        rep.violation({"kind": "failing-input", "input": cc, "observed": {"laws_violated": bad},
+                       "expected": "substitution through callable values replaces every occurrence and distributes over overloads / unions",
+                       "how_to_run": f"./check {PROP} --replay <this file>"})
+    if True:
+        pass
 
     # implementation + oracle
     impl, terms, oof = [], [], 0
@@ -372,6 +532,7 @@ def run(tier: str, replay: str | None = None):
         correspondence_mismatches=len(corr_mismatch) + sum(1 for _, _, m in failing if m),
         oracle_failures_unattributed=len(failing),
         laws_checked_on_real_code=LAWS,
+        callable_kind_cases=len(callable_cases), callable_kind_failures=len(callable_failures),
     )
     rep.assumptions = ["ideal hashing: distinct hash keys do not collide (only the direction model-heq => hash equal is compared)",
                        "NaN, -0.0 and objects with user-defined __eq__/__hash__ are outside the modelled fragment"]
